@@ -238,7 +238,9 @@ def run(ctx):
                 calls = {x.split("::")[-1] for x in d.calls}
                 det = f"fields {sorted(d.names & {'size', 'offset', 'file_size'})}, params {sorted(d.params)}, calls {sorted(calls)}"
                 from_table = bool(tbl) and any(l in d.locals for l in tbl)
-                by_index = ("index" in calls or any(x.endswith("::index") for x in d.calls)) and "next" in calls
+                from ..loops import stepped_up_counters
+
+                by_index = ("index" in calls or "get" in calls or any(x.endswith("::index") for x in d.calls)) and ("next" in calls or bool(stepped_up_counters(sb) & d.locals))
                 by_iter = "next" in calls and ({"into_iter", "iter"} & calls)
                 ok = 2 in d.params and {"size", "offset"} <= d.names and from_table and bool(by_index or by_iter)
                 order = from_table and bool(by_index or by_iter) and not ({"rev", "next_back", "rposition", "last"} & calls)
@@ -287,6 +289,13 @@ def run(ctx):
                 cl_ = {x.split("::")[-1] for x in d_.calls}
                 if {"compressed_offset", "lods"} <= d_.names and (("index" in cl_ and 0 in d_.consts) or "first" in cl_) and not ({"last", "next", "next_back"} & cl_):
                     hdr_len = True
+        # the position handed to the block reader: whatever the variable is called, it starts from
+        # lods[i].compressed_offset + entry offset + file_info.size
+        for _bi, t in tb.calls():
+            if "sqpack::read_data_block" in (t.get("res") or "") and len(t["args"]) == 2:
+                d_ = derive(tix, t["args"][1])
+                if {"compressed_offset", "size", "lods"} <= d_.names and 2 in d_.params:
+                    chain = True
         rbt = [l for l, nm in tb.local_names().items() if nm == "running_block_total"]
         if rbt:
             for kind, _bi2, _si2, st in tb.defs().get(rbt[0], []):
